@@ -42,6 +42,8 @@ def cases(draw, max_n=40):
         "preload": preload,
         "chunks": draw(gs.chunking(n - preload)),
         "mode": draw(st.sampled_from(("manager", "manager", "indicator", "hexital"))),
+        # a candle lifespan on top: what is retained is still contiguous and is the tail of the untrimmed series
+        "lifespan": draw(st.sampled_from((None, None, None, 3 * tfs, 10 * tfs, 7 * tfs + 13, 3600))),
     }
 
 
@@ -54,14 +56,19 @@ def drive(case, fill=True, batch=False):
     pre = len(rows) if batch else min(case.get("preload", 0), len(rows))
     rest = rows[pre:]
     mode = case.get("mode", "manager")
+    life = {}
+    if case.get("lifespan") and mode != "hexital":  # a Hexital builds member timeframes from an already trimmed base: not judged here
+        from datetime import timedelta
+
+        life = {"candles_lifespan": timedelta(seconds=case["lifespan"])}
     if mode == "manager":
-        obj = CandleManager(mk_candles(rows[:pre]), timeframe=tf, timeframe_fill=fill)
+        obj = CandleManager(mk_candles(rows[:pre]), timeframe=tf, timeframe_fill=fill, **life)
         get = lambda: obj.candles  # noqa: E731
     elif mode == "indicator":
-        obj = HighLowAverage(candles=mk_candles(rows[:pre]), timeframe=tf, timeframe_fill=fill)
+        obj = HighLowAverage(candles=mk_candles(rows[:pre]), timeframe=tf, timeframe_fill=fill, **life)
         get = lambda: obj.candles  # noqa: E731
     else:
-        obj = Hexital("c12", mk_candles(rows[:pre]), [HighLowAverage(timeframe=tf)], timeframe_fill=fill)
+        obj = Hexital("c12", mk_candles(rows[:pre]), [HighLowAverage(timeframe=tf)], timeframe_fill=fill, **life)
         get = lambda: obj.candles(tf.upper())  # noqa: E731
     calls = 0
     for a, b in split_chunks(len(rest), case.get("chunks", [])):
@@ -77,6 +84,9 @@ def run_case(case) -> Result:
     plain = rr.resample(rows, tf)
     inserted = len(want) - len(plain)
     labels = []
+    if case.get("lifespan") and want and mode != "hexital":
+        labels.append("with_lifespan")
+        want = [r for r in want if r[0] >= want[-1][0] - case["lifespan"]]
     gaps = sum(1 for a, b in zip(plain, plain[1:]) if b[0] - a[0] > tf)
     if gaps >= 2:
         labels.append("multi_gap")
@@ -99,7 +109,9 @@ def run_case(case) -> Result:
     prev = None
     for r in got:
         if r[0] not in real:
-            if prev is None or not (r[1] == r[2] == r[3] == r[4] == prev[4]) or r[5] != 0:
+            if prev is None and "with_lifespan" in labels and r[5] == 0 and r[1] == r[2] == r[3] == r[4]:
+                pass  # the candle it was copied from has been trimmed away; its value is judged against the reference below
+            elif prev is None or not (r[1] == r[2] == r[3] == r[4] == prev[4]) or r[5] != 0:
                 viol.append(Violation("inserted-candle-not-flat-at-previous-close", mode, f"inserted {r} after {prev}"))
                 break
         elif r != real[r[0]]:
